@@ -148,9 +148,7 @@ class Ctx:
             n_this = self.n_tlc
         d = os.path.join(self.work, "tlc-%d-%s" % (n_this, module))
         os.makedirs(d, exist_ok=True)
-        for f in os.listdir(SPEC):
-            if f.endswith(".tla"):
-                shutil.copy(os.path.join(SPEC, f), os.path.join(d, f))
+        copy_specs(d)
         for name, src in (files or {}).items():
             dst = os.path.join(d, name)
             if isinstance(src, (bytes, bytearray)):
@@ -223,6 +221,37 @@ class Ctx:
             futs = [ex.submit(one, j) for j in jobs]
             return [f.result() for f in futs]
 
+    def validate_trace(self, module, trace_path, inv="Allowed", chunk=20000, procs=4, timeout=1200,
+                       trace_name="trace.ndjson", extra_files=None):
+        """Code -> spec: TLC checks every event of an ndjson trace against spec/<module>.tla.
+
+        Independent events (parallel form): returns the list of REJECT records with a global, 1-based
+        event index in field "l".  The trace is split into chunks checked by several TLC processes.
+        """
+        with open(trace_path) as f:
+            lines = f.readlines()
+        jobs, offs = [], []
+        cfg = "INIT Init\nNEXT Next\nINVARIANT %s\nCHECK_DEADLOCK FALSE\n" % inv
+        for i in range(0, len(lines), chunk):
+            files = {trace_name: "".join(lines[i:i + chunk]).encode()}
+            files.update(extra_files or {})
+            jobs.append(dict(module=module, cfg=cfg, files=files, cont=True, timeout=timeout))
+            offs.append(i)
+        runs = self.tlc_parallel(jobs, procs=procs)
+        rejects = []
+        for off, r in zip(offs, runs):
+            for v in r.violated:
+                if v != inv:
+                    raise Inconclusive("unexpected TLC violation %s on %s (log %s)" % (v, module, r.log))
+            for rec in r.records:
+                if rec.get("kind") == "REJECT":
+                    rec = dict(rec)
+                    rec["l"] = rec["l"] + off
+                    rejects.append(rec)
+            if r.violated and not any(rec.get("kind") == "REJECT" for rec in r.records):
+                raise Inconclusive("TLC reports %s violated without a REJECT record (log %s)" % (inv, r.log))
+        return len(lines), rejects
+
     # ------------------------------------------------------------------ verdict pieces
     def sample(self, s):
         if len(self.samples) < 12:
@@ -287,6 +316,32 @@ class Ctx:
         if not os.environ.get("VERIF_KEEP"):
             shutil.rmtree(self.work, ignore_errors=True)
         return 1 if self.violations else 0
+
+
+_S_RE = re.compile(r'\bStr\("((?:[^"\\]|\\.)*)"\)')
+
+
+def expand_S(text):
+    """Str("abc") -> <<97, 98, 99>> (TLA+ strings are atomic; see spec/Chars.tla)."""
+    def rep(m):
+        raw = m.group(1).replace('\\"', '"').replace("\\\\", "\\")
+        return "<<" + ", ".join(str(ord(c)) for c in raw) + ">>"
+    out = []
+    for line in text.split("\n"):
+        if line.startswith("Str(str) =="):
+            out.append(line)
+        else:
+            out.append(_S_RE.sub(rep, line))
+    return "\n".join(out)
+
+
+def copy_specs(d):
+    for f in os.listdir(SPEC):
+        if f.endswith(".tla"):
+            with open(os.path.join(SPEC, f)) as src:
+                text = src.read()
+            with open(os.path.join(d, f), "w") as dst:
+                dst.write(expand_S(text))
 
 
 def sig_matches(known_sig, sig):
